@@ -353,6 +353,25 @@ func tree(sb *strings.Builder, p capnp.Ptr, err error) {
 			}
 		}
 		sb.WriteString("]")
+		// the byte-oriented views of a byte list must agree with its elements: Data() is the bytes, Text() / TextBytes()
+		// the bytes without the final NUL when there is one (interior NULs belong to the text), else empty
+		if ek == 2 && flags == 0 && nAll <= 4096 {
+			bl := capnp.UInt8List{List: l}
+			el := make([]byte, nAll)
+			for i := range el {
+				el[i] = bl.At(i)
+			}
+			wantText := []byte{}
+			if nAll > 0 && el[nAll-1] == 0 {
+				wantText = el[:nAll-1]
+			}
+			if !bytes.Equal(p.Data(), el) {
+				sb.WriteString("!data-view")
+			}
+			if p.Text() != string(wantText) || !bytes.Equal(p.TextBytes(), wantText) {
+				sb.WriteString("!text-view")
+			}
+		}
 		// upgrade rules on the first element (see Spec.Encoding.renderPtr)
 		_ = nAll
 		if n > 0 && ek == 7 {
@@ -419,6 +438,65 @@ func execTree(t []string) string {
 	treeBudget = 3000
 	tree(&sb, root, err)
 	return sb.String()
+}
+
+// execReuse: "read reuse <how> <segsA> <segsB>": message A is read completely, then the same Message / Decoder is
+// reused for message B (how = reset: Message.Reset; dec / pdec: one Decoder with ReuseBuffer over a plain / packed
+// stream).  The result is the tree of B: nothing of A may show through.
+func execReuse(t []string) string {
+	a, ok1 := parseSegs(t[2])
+	b, ok2 := parseSegs(t[3])
+	if !ok1 || !ok2 {
+		return "bad-op"
+	}
+	render := func(msg *capnp.Message) string {
+		msg.TraverseLimit = 1 << 40
+		msg.DepthLimit = 64
+		msg.ResetReadLimit(1 << 40)
+		root, err := msg.Root()
+		var sb strings.Builder
+		treeBudget = 3000
+		tree(&sb, root, err)
+		return sb.String()
+	}
+	switch t[1] {
+	case "reset":
+		msg := &capnp.Message{Arena: capnp.MultiSegment(a)}
+		render(msg)
+		msg.Reset(capnp.MultiSegment(b))
+		return render(msg)
+	case "dec", "pdec":
+		ma := &capnp.Message{Arena: capnp.MultiSegment(a)}
+		mb := &capnp.Message{Arena: capnp.MultiSegment(b)}
+		var buf bytes.Buffer
+		var enc *capnp.Encoder
+		if t[1] == "pdec" {
+			enc = capnp.NewPackedEncoder(&buf)
+		} else {
+			enc = capnp.NewEncoder(&buf)
+		}
+		if enc.Encode(ma) != nil || enc.Encode(mb) != nil {
+			return execTree([]string{"tree", t[3]})
+		}
+		var dec *capnp.Decoder
+		if t[1] == "pdec" {
+			dec = capnp.NewPackedDecoder(&buf)
+		} else {
+			dec = capnp.NewDecoder(&buf)
+		}
+		dec.ReuseBuffer()
+		m1, err := dec.Decode()
+		if err != nil {
+			return execTree([]string{"tree", t[3]})
+		}
+		render(m1)
+		m2, err := dec.Decode()
+		if err != nil {
+			return execTree([]string{"tree", t[3]})
+		}
+		return render(m2)
+	}
+	return "bad-op"
 }
 
 var sharedOnce sync.Once
@@ -621,6 +699,9 @@ func execRead(t []string) string {
 	}
 	if len(t) == 2 && t[0] == "tree" {
 		return execTree(t)
+	}
+	if len(t) == 4 && t[0] == "reuse" {
+		return execReuse(t)
 	}
 	if len(t) == 4 && t[0] == "equal" {
 		return execEqual(t)
